@@ -456,6 +456,14 @@ def check_metrics(pid, tier, seed):
     wl2 = we.gen_workloads(consts2, mode="simulate", num=(200, 3000)[ti], seed=seed, stats=eng.stats)
     jobs = we.make_jobs(wl + wl2, "seq", [64, 96], ["ident"], seed, prefix="m", probeEach=True, metrics=True)
     jobs += we.make_jobs(wl2[:(60, 600)[ti]], "seq", [256], ["bin"], seed, prefix="mb", probeEach=True, metrics=True)
+    # a batch that the segment writer refuses (an entry above the 64 MiB limit): nothing was appended, so none of the
+    # append counters may move ("calls appended")
+    for k, pos in enumerate(([67108865], [24, 67108865])):
+        jobs.append({"id": "mrefused%d" % k, "family": "seq", "codec": "ident", "segSize": 1 << 20, "seed": seed, "metrics": True,
+                     "probeEach": False,
+                     "steps": [{"op": "store", "first": 1, "cids": [1], "sz": [1]},
+                               {"op": "store", "first": 2, "cids": list(range(2, 2 + len(pos))), "sz": [1] * len(pos), "bytes": pos},
+                               {"op": "store", "rel": True, "n": 1, "sz": [1]}, {"op": "probe"}]})
     eng.stats["distinct_seq"] = len({json.dumps([j["steps"], j["segSize"]], sort_keys=True) for j in jobs})
     eng.final(jobs + we.corpus_jobs(pid), "m")
     if scan["undeclared"]:
